@@ -74,6 +74,9 @@ func CuratedSpecs() []*StructSpec {
 	}
 	wide.f(40, Default, tlist(ts(KString))).f(41, Default, tmap(ts(KI32), ts(KString))).f(42, Default, ts(KBinary)).f(43, Default, ts(KI32))
 	add(wide)
+	// recursion through containers of structs held by value (no pointer anywhere on the way down)
+	add(newS("RecBV").f(1, Default, tmap(ts(KI32), tref("RecBV", false))).f(2, Default, tlist(tref("RecBV", false))).
+		f(3, Default, tmap(ts(KI32), tlist(tref("RecBV", false)))).f(4, Default, ts(KI16)))
 	// a recursive type whose required field comes after its links on the wire (C15: the kind of the
 	// error for over-deep input must not depend on what the enclosing structs still wait for)
 	add(newS("RecReq").f(1, Optional, tref("RecReq", true)).f(2, Default, tlist(tref("RecReq", true))).f(3, Required, ts(KI64)).holder())
